@@ -190,6 +190,114 @@ theorem isForwardOnly_ascending (l : List BoF) (h : isForwardOnly l = true) :
         exact ⟨UserBounds.le_follows hle, ih q h2⟩
       · simp [hle] at h2
 
+/-- a side that is open or the (unparsable) index 0 -/
+def Side.ZeroOrOpen : Side → Prop
+  | .cont => True
+  | .some v => v = 0
+
+theorem Side.zeroOrOpen_of_flags {s : Side} (h1 : s.isPos = false) (h2 : s.isNeg = false) :
+    s.ZeroOrOpen := by
+  cases s with
+  | cont => trivial
+  | some v =>
+    simp [Side.isPos, Side.isNeg] at h1 h2
+    show v = 0
+    omega
+
+theorem Side.nonzero_or_zero (s : Side) : s.Nonzero ∨ s = .some 0 := by
+  cases s with
+  | cont => exact Or.inl trivial
+  | some v =>
+    by_cases h : v = 0
+    · right; rw [h]
+    · left; exact h
+
+/-- **`is_forward_only` in closed form, no side condition**: either the positive ascending case of
+    `isForwardOnly_spec`, or a lone bound whose written indexes are all 0 -/
+theorem isForwardOnly_iff (l : List BoF) :
+    isForwardOnly l = true ↔
+      ((∀ b ∈ boundsOnly l, b.Pos) ∧ Ascending (boundsOnly l)) ∨
+      (∃ b, boundsOnly l = [b] ∧ b.l.ZeroOrOpen ∧ b.r.ZeroOrOpen) := by
+  constructor
+  · intro h
+    by_cases hz : ∀ b ∈ boundsOnly l, b.Nonzero
+    · exact Or.inl ((isForwardOnly_spec l hz).1 h)
+    · right
+      unfold isForwardOnly isSortable hasNegativeIndices isSorted at h
+      simp only [Bool.and_eq_true, Bool.not_eq_true'] at h
+      obtain ⟨⟨hsortable, hsorted⟩, hnoneg⟩ := h
+      generalize boundsOnly l = bs at *
+      -- some bound has an index 0
+      have hex : ∃ b ∈ bs, b.l = .some 0 ∨ b.r = .some 0 := by
+        apply Classical.byContradiction
+        intro hcon
+        apply hz
+        intro b hb
+        rcases Side.nonzero_or_zero b.l with h1 | h1
+        · rcases Side.nonzero_or_zero b.r with h2 | h2
+          · exact ⟨h1, h2⟩
+          · exact absurd ⟨b, hb, Or.inr h2⟩ hcon
+        · exact absurd ⟨b, hb, Or.inl h1⟩ hcon
+      obtain ⟨b0, hb0, hzero⟩ := hex
+      have hnp : (bs.any fun b => b.l.isNonPos || b.r.isNonPos) = true := by
+        rw [List.any_eq_true]
+        refine ⟨b0, hb0, ?_⟩
+        rcases hzero with h | h <;> simp [h, Side.isNonPos]
+      rw [hnp] at hsortable
+      simp only [Bool.true_and] at hsortable
+      rw [List.any_eq_false] at hsortable hnoneg
+      have hall : ∀ b ∈ bs, b.l.ZeroOrOpen ∧ b.r.ZeroOrOpen := by
+        intro b hb
+        have h1 := hsortable b hb
+        have h2 := hnoneg b hb
+        simp only [Bool.or_eq_true, not_or, Bool.not_eq_true] at h1 h2
+        exact ⟨Side.zeroOrOpen_of_flags h1.1 h2.1, Side.zeroOrOpen_of_flags h1.2 h2.2⟩
+      cases bs with
+      | nil => simp at hb0
+      | cons p t =>
+        cases t with
+        | nil => exact ⟨p, rfl, hall p (by simp)⟩
+        | cons q u =>
+          exfalso
+          have hp := (hall p (by simp)).2
+          simp only [isSortedAux] at hsorted
+          by_cases hle : p.le q = true
+          · obtain ⟨s, hs, hss, _⟩ := (UserBounds.le_iff p q).1 hle
+            rw [hs] at hp
+            have : s = 0 := hp
+            subst this
+            simp [sameSign] at hss
+          · simp [hle] at hsorted
+  · rintro (⟨hp, ha⟩ | ⟨b, hb, hl, hr⟩)
+    · exact (isForwardOnly_spec l (fun b hb => ⟨by
+        have := (hp b hb).1
+        cases hs : b.l with
+        | cont => trivial
+        | some v => rw [hs] at this; have : 0 < v := this; show v ≠ 0; omega, by
+        have := (hp b hb).2
+        cases hs : b.r with
+        | cont => trivial
+        | some v => rw [hs] at this; have : 0 < v := this; show v ≠ 0; omega⟩)).2 ⟨hp, ha⟩
+    · unfold isForwardOnly isSortable hasNegativeIndices isSorted
+      rw [hb]
+      obtain ⟨bl, br, il, fb⟩ := b
+      cases bl with
+      | cont =>
+        cases br with
+        | cont => simp [isSortedAux, Side.isPos, Side.isNonPos, Side.isNeg]
+        | some v =>
+          have : v = 0 := hr
+          subst this
+          simp [isSortedAux, Side.isPos, Side.isNonPos, Side.isNeg]
+      | some u =>
+        have : u = 0 := hl
+        subst this
+        cases br with
+        | cont => simp [isSortedAux, Side.isPos, Side.isNonPos, Side.isNeg]
+        | some v =>
+          have : v = 0 := hr
+          subst this
+          simp [isSortedAux, Side.isPos, Side.isNonPos, Side.isNeg]
 /-! ## `records`: the empty input, the lone EOL, one trailing EOL -/
 
 theorem splitRecords_eq_nil_iff (eol : UInt8) (cur x : Bytes) :
